@@ -447,6 +447,21 @@ def rule_W5(ctx):
         if not (takes and returns):
             continue
         got = carried_fields(F, f, "SimpleGarnishData")
+        # a function that copies some fields itself and delegates the rest: what the delegate carries counts too
+        seen_d, work_d = set(), [f]
+        while work_d:
+            h = work_d.pop()
+            for d, _c in hirq.calls_in(h["hir"]):
+                g = F.fns.get(d)
+                if g is None or g["crate"] != f["crate"] or g["kind"] == "Closure" or g["path"] in seen_d or not g.get("hir"):
+                    continue
+                gl = g["mir"]["locals"]
+                if "SimpleGarnishData<" in gl[0]["ty"] and any("SimpleGarnishData<" in gl[i]["ty"] and gl[i]["ty"].startswith("&") for i in range(1, g["mir"]["argc"] + 1)):
+                    seen_d.add(g["path"])
+                    got_g = carried_fields(F, g, "SimpleGarnishData")
+                    if got and got_g:
+                        got |= got_g
+                    work_d.append(g)
         if not got:
             continue  # delegates to another function; that one is examined
         n += 1
@@ -1492,6 +1507,8 @@ def _is_host_call(e, name):
         fe = peel(e.get("f") or {})
         if fe.get("k") == "Field" and "fn(" in (fe.get("ty") or ""):
             return True
+        if fe.get("k") == "Path" and fe.get("res") == "local" and "fn(" in (fe.get("ty") or ""):
+            return True  # `let resolver = self.resolver; resolver(self, symbol)`
         d = callee(e) or ""
         if last(d) == name and d != "":
             return True
@@ -1500,10 +1517,22 @@ def _is_host_call(e, name):
     return False
 
 
-def verdict_problems(f, name):
+def verdict_problems(f, name, F=None, depth=0):
     body = Body(f)
     bad = []
     n_calls = [0]
+    def delegate(e):
+        """a call of a workspace function that itself only passes the host's answer on"""
+        if F is None or depth > 2:
+            return False
+        d = callee(e) if e.get("k") in ("Call", "MethodCall") else None
+        g = F.fns.get(d) if d else None
+        if g is None or g["crate"] != f["crate"] or g["kind"] == "Closure" or not g.get("hir") or g["path"] == f["path"]:
+            return False
+        if "Result<bool" not in (g["mir"]["locals"][0]["ty"] or "").replace("core::result::", ""):
+            return False
+        b2, c2 = verdict_problems(g, name, F, depth + 1)
+        return not b2 and c2 > 0
 
     def ok(e, depth=0, seen=None):
         seen = seen if seen is not None else set()
@@ -1511,7 +1540,7 @@ def verdict_problems(f, name):
             return
         e = peel(e)
         k = e.get("k")
-        if _is_host_call(e, name):
+        if _is_host_call(e, name) or delegate(e):
             n_calls[0] += 1
             return
         if k == "Call":
@@ -1575,7 +1604,7 @@ def rule_A12(ctx):
         if f["crate"] != "garnish_lang_simple_data" or "GarnishData::" not in ti or last(ti) not in _CALLBACKS:
             continue
         n += 1
-        bad, calls = verdict_problems(f, last(ti))
+        bad, calls = verdict_problems(f, last(ti), F)
         r.examine((f["path"],), True, {"method": last(ti), "impl": (f.get("impl_self") or "").split("<")[0], "host_calls": calls, "problems": [b[0] for b in bad]})
         seen = set()
         for inst, where, msg in bad:
@@ -1891,7 +1920,11 @@ def rule_T18(ctx):
                 continue
             seen.add(inst)
             r.finding(f["path"], inst, where, "this arm computes its node's id as `%s` (shifted by one when a List node is inserted in front) but records the unshifted `%s` in `%s` at %s: when the List node is inserted that is the List node's id, so what follows is attached outside the bracket / operator it belongs to" % (sh, idn, st, where))
-    r.floor("parser arms that compute a shifted node id", total_arms, 2)
+    # no floor: the shape (`let mut our_id = id; .. our_id = id + 1`) is one way to write these arms - a parser that inserts the
+    # List node through a helper returning the node's id has no such local and nothing for this clause to compare
+    r.analysed["arms_with_a_shifted_id"] = total_arms
+    if not total_arms:
+        r.info.append("no parser arm computes a shifted own id on this tree: the clause has nothing to compare")
     for f in F.fns_in("gfixture::round3::t18::"):
         if f["kind"] == "Closure" or not f.get("name", "").startswith(("ctl_", "ok_")):
             continue
